@@ -10,23 +10,37 @@ def jobs(tier, seed, prop):
     enums = tables.cut_enum("TypeOneDRule", R)[0]
     t, info = transforms.emit(R)
     cf = ContractFile("contracts/transforms.c")
-    LB, LX = (8, 8) if tier == "quick" else (16, 12)
-    pre = '#include "tsg_shim.h"\nint tsg_exc;\n#define TSG_NDIM 2\n#define LB %d\n#define LX %d\n' % (LB, LX) + enums + '#line 1 "/verif/contracts/transforms.c"\n' + cf.text(("text",)) + t
+    LB, LX, KMAX = (4, 4, 4) if tier == "quick" else (12, 10, 10)
+    pre = '#include "tsg_shim.h"\nint tsg_exc;\n#define TSG_NDIM 2\n#define LB %d\n#define LX %d\n#define KMAX %d\n' % (LB, LX, KMAX) + enums + '#line 1 "/verif/contracts/transforms.c"\n' + cf.text(("text",)) + t
     fl = ["%s:%d %s" % (f["file"], f["line"], f["name"]) for f in info["functions"]]
     out = []
     FAMS = {"laguerre": "FAM_LAGUERRE(r)", "hermite": "FAM_HERMITE(r)", "fourier": "((r) == rule_fourier)", "jacobi": "FAM_JACOBI(r)",
             "canonical": "(!FAM_LAGUERRE(r) && !FAM_HERMITE(r) && !FAM_JACOBI(r) && (r) != rule_fourier)"}
-    for lem, fam in [(l, f) for l in ("lemma_roundtrip", "lemma_qscale") for f in FAMS if not (l == "lemma_roundtrip" and f == "jacobi")]:
+    pairs = [(l, f) for l in ("lemma_roundtrip", "lemma_qscale") for f in FAMS if not (l == "lemma_roundtrip" and f == "jacobi")]
+    if tier == "quick":     # quick: the [-1,1] family always, one further family chosen by the seed; thorough: all families
+        other = ["laguerre", "hermite", "fourier"][seed % 3]
+        pairs = [(l, f) for l, f in pairs if f in ("canonical", other) or (l == "lemma_qscale" and f == "jacobi")]
+    for lem, fam in pairs:
         fexpr = FAMS[fam]
         if lem == "lemma_roundtrip" and fam == "canonical":
             fexpr = "(!FAM_LAGUERRE(r) && !FAM_HERMITE(r) && (r) != rule_fourier)"   # the Jacobi-type rules share the [-1,1] map
         pre_f = pre.replace("#define LB ", "#define FAMILY(r) %s\n#define LB " % fexpr, 1)
         out.append(Job("transforms.%s.%s" % (lem, fam), pre_f + cf.text(("lemma",), [lem]) + cf.text(("harness",), ["h_" + lem]), "h_" + lem, enforce=lem, split=r'lemma_\w+\.assertion\.\d+$',
                        pre_unwindset={r'mapCanonicalToTransformed|mapTransformedToCanonical|getQuadratureScale|diffCanonicalTransform|tsg_\w+': 4},
-                       timeout=900 if tier == "quick" else 3000, backends=[["--sat-solver", "cadical"], []], functions=fl, info=info,
-                       bounded="exact lattice: |a| <= 2^%d, widths 2^k with k <= 10, canonical x = i*2^-%d; dimensions <= 2" % (LB, LX),
+                       timeout=600 if tier == "quick" else 3000, backends=[["--sat-solver", "cadical"], []], functions=fl, info=info,
+                       bounded="exact lattice: |a| <= 2^%d, widths 2^k with k <= %d, canonical x = i*2^-%d; dimensions <= 2" % (LB, KMAX, LX),
                        assumed=["sqrt(x) returns r >= 0 with r*r == x on perfect squares (stub)", "pow is uninterpreted; only its arguments are checked",
                                 "rounding off the lattice and the conformal (asin) map are not covered"],
                        label={"lemma_roundtrip": "L10a/L10b forward and inverse maps are mutual inverses; the Jacobian is the pull-back rate (all rules)",
                               "lemma_qscale": "L10c quadrature scale per rule family"}[lem] + " [family: %s]" % fam))
+    # chain-rule scaling loops at grid level
+    Rc = X.Rules()
+    ct, cinfo = transforms.emit_chain_loops(Rc)
+    t2 = [t_ for k, a, t_ in cf.sections if k == "text2"][0]
+    for fn in ("chain_differentiate", "chain_weights"):
+        out.append(Job("transforms." + fn, '#include "tsg_shim.h"\n#include <stdlib.h>\nint tsg_exc;\n#define CHAIN %s\n#define CH_NO %d\n#line 1 "/verif/contracts/transforms.c"\n' % (fn, 2 if tier == "quick" else 3) + t2 + ct + cf.text(("harness",), ["h_chain"]),
+                       "h_chain", unwind=2 * 6 + 2, timeout=300, functions=["%s:%d %s" % (f["file"], f["line"], f["name"]) for f in cinfo["functions"]], info=cinfo,
+                       bounded="dimensions <= 2, outputs / points <= 2 quick, 3 thorough (full unwinding); canary cells behind the array detect out-of-range writes",
+                       assumed=["R13: the product is an uninterpreted deterministic function"],
+                       label="%s: chain-rule scaling touches each entry once with the rate of its own dimension" % fn))
     return out
